@@ -7,7 +7,7 @@ from pbt.props import _e1
 
 ID = 'C08'
 LEVEL = 'exploration'
-RULE = ('E1 histories of down/up/frozen transitions with clock advances '
+RULE = ('70% E1 histories (pure scheduler API) and 30% E2 histories (Master + ZkBackend + masterapi on the fake ZooKeeper, incl. reload/restore/restart paths of loader.py); E1 histories of down/up/frozen transitions with clock advances '
         'drawn relative to retention timeouts (just before/after/far), '
         'retention None/0/finite, arrivals causing pressure, blacklist flips, '
         'freeze with and without an app list. Non-trivial = some instance '
@@ -18,7 +18,7 @@ ASSUMPTIONS = [
     'down = presence vanished (Loader.adjust_presence); the harness records '
     'the clock window of each transition itself',
 ]
-TRUSTED = ['pbt/cellsim.py', 'pbt/oracles.py']
+TRUSTED = ['pbt/cellsim.py', 'pbt/mastersim.py', 'pbt/fakezk.py', 'pbt/oracles.py']
 BUDGET = {'quick': 6000, 'thorough': 160000}
 
 PROFILE = {
@@ -29,8 +29,11 @@ PROFILE = {
 }
 
 
+E2_PROFILE = {'weights': {'app': 12, 'down': 6, 'up': 3, 'state': 5, 'bl': 3, 'adv': 4, 'adv_ret': 6, 'restart': 2, 'integrity': 2, 'running': 2}, 'force': ['down', 'adv_ret'], 'lease': False}
+
+
 def strategy(tier):
-    return gen.cell_case(PROFILE)
+    return gen.tagged(PROFILE, E2_PROFILE, e2_share=3)
 
 
 def watch(sim, info, flags):
